@@ -52,7 +52,7 @@ DROP_PATTERNS = [
 ALLOWED_INSERT = re.compile(
     r'^\s*(requires|ensures|invariant|invariant_except_break|decreases|returns|'
     r'proof\s*\{|assert\s*\(|assert\s+forall|let ghost|let tracked|opens_invariants|no_unwind|'
-    r'#\[verifier::|#\[trigger\]|broadcast use|reveal\(|//)')
+    r'#\[verifier::|#\[trigger\]|broadcast use|reveal\(|//|\{\s*proof\s*\{)')
 # closure / signature decorations are short single-line inserts, checked apart
 ALLOWED_INLINE = re.compile(
     r'^(\s*:\s*[A-Za-z0-9_&<>\[\]\' ]+|\s*->\s*\([a-z_]+:\s*[^)]+\)\s*(requires|ensures)[^{}]*\{\s*|\s*\}\s*|\((\w+): |\))$', re.S)
